@@ -127,9 +127,9 @@ def main():
             exit_code = max(exit_code, 2)
             continue
         labels = ",".join("%s" % l for l in _labels_from_report(r))
-        pb = kani.playback(h, found[h.name], labels, os.path.join(VERIF, "replays", prop))
+        pb = kani.playback(h, found[h.name], labels, kani.replays_dir(prop))
         r["playback"] = {k: pb[k] for k in ("reproduced_dev", "reproduced_release", "test_path")}
-        logp = os.path.join(VERIF, "replays", prop, "%s.log" % h.name)
+        logp = os.path.join(kani.replays_dir(prop), "%s.log" % h.name)
         os.makedirs(os.path.dirname(logp), exist_ok=True)
         with open(logp, "w") as f:
             f.write(pb["log"])
